@@ -414,18 +414,22 @@ def make_run_plan(run_seed: int, profile: str, tier: str = "quick", overrides: d
         mids = list(b.models)
         if inc_index == 1:
             mids.reverse()  # after a restart the models are built in the opposite order
-        cfgs = []
+        # every model gets what its signatures need (a solve and a simulate-capable function object);
+        # further objects (other targets, duplicates) fill up to six
+        cfgs, more = [], []
         for mid in mids:
             need_solve = any(s["kind"] == "SOLVE" and s["mid"] == mid for s in sigs)
             if need_solve:
                 cfgs.append((mid, "solve"))
             cfgs.append((mid, rng.choice(["solve_and_simulate", "simulate"])))
             if rng.random() < 0.6:
-                cfgs.append((mid, rng.choice(["solve", "simulate", "solve_and_simulate"])))
+                more.append((mid, rng.choice(["solve", "simulate", "solve_and_simulate"])))
             if extras["dup_handles"]:
-                cfgs.append(rng.choice(cfgs))
+                more.append(rng.choice(cfgs))
+        rng.shuffle(more)
+        cfgs += more[: max(0, 6 - len(cfgs))]
         first_build = {}
-        for k, (mid, target) in enumerate(cfgs[:5]):
+        for k, (mid, target) in enumerate(cfgs):
             hid = f"h{inc_index}_{k}"
             w = rng.randrange(n_workers)
             op = build_op(hid, mid, target, jit=rng.random() < 0.6, debug=rng.random() < debug_p, worker=w)
